@@ -389,6 +389,20 @@ def c08(tier, replay):
     totals = validate(run, "C08", "sessions", logs, scripts=sessions, binary=binary)
     if totals.get("terminal_gos", 0) < 5:
         raise ToolError("coverage hole: fewer than 5 go commands in finished games")
+    # with the engine's own logging switched on (setoption DebugLogLevel Info): the lines formatted for the log are evaluated
+    # only then (a log argument that cannot be computed kills the I/O thread); zero, small and odd clocks, finished games
+    scratch = R.trace_dir("C08-logcwd")
+    lsessions = []
+    for i in range(8 if q else 60):
+        steps = [{"do": "send", "line": "setoption name DebugLogLevel value Info"}, {"do": "isready"}, {"do": "send", "line": rng.choice(live + term[:2])}]
+        for g in rng.sample(GO_ZERO + clocks[:2] + GO_ODD[:2], 3):
+            steps += [{"do": "go", "line": g}, {"do": "isready"}]
+        lsessions.append(steps)
+    plan(h, lsessions)
+    llogs = run_sessions(binary, lsessions, 4, cwd=scratch)
+    validate(run, "C08", "logging", llogs, scripts=lsessions, binary=binary)
+    shutil.rmtree(scratch, ignore_errors=True)
+    run.cov["sessions_with_engine_logging_on"] = len(lsessions)
     model_walleye(run, tier)
     run.cov["rule"] = ("finished games (checkmates / stalemates from the generators and fixed ones) and live positions x clocks with movestogo >= 1; each go must be "
                        "answered (null move iff Chess!Legal is empty) within slice + %d ms, then isready -> readyok, then a further position / go is served; two "
